@@ -101,7 +101,7 @@ def build_overlay(entries, specs):
     return ov, chosen
 
 
-def assemble(spec, mod, entries, chosen, ptr_bytes=8):
+def assemble(spec, mod, entries, chosen, ptr_bytes=8, stubbed=()):
     """returns (text, fnmap) — fnmap: list of (first_line, last_line, key, properties)"""
     tags = module_tags(spec)
     problems = []
@@ -161,7 +161,7 @@ def assemble(spec, mod, entries, chosen, ptr_bytes=8):
     places = {"E": [], "EIter": [], "ENames": [], "free": []}
     for k in included:
         f = fns[k]
-        if f["errors"]:
+        if f["errors"] and k not in stubbed:
             problems.append("%s: %s" % (k, "; ".join(f["errors"])))
         places[f["place"]].append(k)
     items = [e for e in overlay.items_for(entries, tags)]
@@ -185,6 +185,9 @@ def assemble(spec, mod, entries, chosen, ptr_bytes=8):
             emit("impl %s {" % place)
         for k in places[place]:
             start = len(lines) + 1
+            if k in stubbed:
+                emit(fns[k]["verus_stub"])
+                continue
             emit(fns[k]["verus"])
             fnmap.append((start, len(lines), k, chosen[(spec.mod, k)].properties(), fns[k]["emitted_name"]))
         for e in items:
@@ -359,15 +362,58 @@ def run_layer_t(scratch, reprs=None, jobs=8, keep_dir=None, target=None, ptr_byt
         with open(path, "w") as f:
             f.write(text)
         jobs_list.append((s, path, text, fnmap, problems, ma))
+    baseline_bodies = {}
+    try:
+        with open(os.path.join(VERIF, "contracts", "baseline_bodies.json")) as bf:
+            baseline_bodies = json.load(bf)
+    except Exception:
+        pass
+
+    def verify_job(job):
+        s, path, text, fnmap, problems, ma = job
+        rc, js, err, dt = verify_file(path)
+        res, extra = analyse(s, text, fnmap, rc, js, err, dt)
+        stubbed = []
+        if res is None:
+            # the file as a whole is rejected (a construct outside the supported subset, or annotations that
+            # no longer fit a changed body).  Second attempt: every function whose body differs from the
+            # baseline, or whose overlay anchors were lost, is replaced by a contract-only stub and reported
+            # undecided; the other functions are still verified (callers against the stubs' contracts).
+            import hashlib
+            fns_ = {f["key"]: f for f in ma["fns"]}
+            cell = sorted(t for t in s.tags if t in corpus.T_CELLS)[0]
+            for (a, b, k, props, emitted) in fnmap:
+                if k not in fns_:
+                    continue
+                h = hashlib.sha1(helper_norm(s.repr + "|" + k + "|" + fns_[k]["canon"]).encode()).hexdigest()
+                base = baseline_bodies.get("T/%s/%s/%s" % (s.repr, cell, k))
+                if fns_[k]["errors"] or (base is not None and base != h):
+                    stubbed.append(k)
+            if stubbed:
+                text2, fnmap2, problems2 = assemble(s, ma, entries, chosen, ptr_bytes, stubbed=set(stubbed))
+                with open(path, "w") as f2:
+                    f2.write(text2)
+                rc, js, err, dt2 = verify_file(path)
+                res2, extra2 = analyse(s, text2, fnmap2, rc, js, err, dt + dt2)
+                if res2 is not None:
+                    first_error = extra
+                    res, extra, text, fnmap = res2, extra2, text2, fnmap2
+                    problems = [p_ for p_ in problems if not any(p_.startswith(k + ":") for k in stubbed)]
+                    for k in stubbed:
+                        e_ = chosen.get((s.mod, k))
+                        res[k] = {"status": "undecided", "properties": e_.properties() if e_ else [], "time_ms": 0, "queries": 0, "kinds": [],
+                                  "reason": "the body of this function differs from the one the annotations were written for and the annotated "
+                                            "function is rejected by verus/rustc; it was replaced by a contract-only stub (not verified):\n" + (first_error or "")[:1200]}
+        return job, res, extra, text, fnmap, problems, stubbed
+
     with cf.ThreadPoolExecutor(max_workers=jobs) as ex:
-        futs = {ex.submit(verify_file, path): (s, path, text, fnmap, problems, ma) for (s, path, text, fnmap, problems, ma) in jobs_list}
+        futs = [ex.submit(verify_job, j) for j in jobs_list]
         for fu in cf.as_completed(futs):
-            s, path, text, fnmap, problems, ma = futs[fu]
-            rc, js, err, dt = fu.result()
-            res, extra = analyse(s, text, fnmap, rc, js, err, dt)
+            (s, path, _t, _f, _p, ma), res, extra, text, fnmap, problems, stubbed = fu.result()
             fns = {f["key"]: f for f in ma["fns"]}
             entry = {"repr": s.repr, "cell": sorted(t for t in s.tags if t in corpus.T_CELLS)[0], "shape": s.shape(),
                      "problems": problems, "assumptions": scan_assumptions(text), "path": path}
+            entry["stubbed"] = stubbed
             if res is None:
                 entry["error"] = extra
                 entry["functions"] = {}
